@@ -395,7 +395,14 @@ fn replay(ctx: &mut Ctx, v: &Value) {
     ctx.force_sample(v["case"].clone());
     let s = start_servers(ctx.seed + 77);
     let mut res = Ok(());
-    if let Some(k) = v["case"]["burst_hold"].as_u64() {
+    if let Some(per) = v["case"]["hammer"].as_u64() {
+        for k in 0..10 {
+            if let Err(f) = hammer(&s.addrs[k % 3], per as usize) {
+                res = Err(f);
+                break;
+            }
+        }
+    } else if let Some(k) = v["case"]["burst_hold"].as_u64() {
         for _ in 0..20 {
             if let Err(f) = burst_hold(k as usize) {
                 res = Err(f);
@@ -487,6 +494,56 @@ fn quiet_then_idle(quiet: Duration) -> Result<bool, Fail> {
         }
     }
     Ok(blocked == 0)
+}
+
+/// Eight clients at once, each pipelining `per` requests to its own mix of interfaces (the service
+/// interface, org.verif.test, org.verif, org.verif.Test): every reply is the answer to its request.
+fn hammer(addr: &str, per: usize) -> Result<bool, Fail> {
+    let mut hs = vec![];
+    for c in 0..8usize {
+        let addr = addr.to_string();
+        hs.push(std::thread::spawn(move || -> Result<bool, Fail> {
+            let mut p = Peer::connect(&addr).map_err(|e| Fail::new("HARNESS/connect", e.to_string()))?;
+            let methods: [&str; 4] = ["org.varlink.service.GetInfo", "org.verif.test.Echo", "org.verif.Echo", "org.verif.Test.Echo"];
+            let mut all = vec![];
+            let mut want = vec![];
+            for i in 0..per {
+                let m = methods[(i * (c + 1) + c) % 4];
+                let tok = format!("h{}-{}", c, i);
+                let req = if m.ends_with("GetInfo") { json!({"method": m}) } else { json!({"method": m, "parameters": {"token": tok, "n": i}}) };
+                all.extend(encode(&req, Style::Compact));
+                want.push((m, tok));
+            }
+            for chunk in all.chunks(32 * 1024) {
+                p.send(chunk);
+            }
+            if !matches!(p.wait_finals(per, Duration::from_secs(30)), Wait::Reached) {
+                return Ok(false);
+            }
+            let replies = split_replies("listen[concurrent]", &p.received())?;
+            for (i, (m, tok)) in want.iter().enumerate() {
+                let r = &replies[i];
+                let ok = if m.ends_with("GetInfo") { r["parameters"]["vendor"].is_string() && r.get("error").map(|e| e.is_null()).unwrap_or(true) } else { r["parameters"]["token"] == tok.as_str() };
+                if !ok {
+                    return Err(Fail::new(
+                        "listen[concurrent]/wrong-reply-under-load",
+                        format!("client {} of 8 (each pipelining {} requests to several interfaces): request #{} `{}` was answered with {}", c, per, i, m, r.to_string().chars().take(200).collect::<String>()),
+                    ));
+                }
+            }
+            Ok(true)
+        }));
+    }
+    let mut all_ok = true;
+    for h in hs {
+        match h.join() {
+            Ok(Ok(true)) => {}
+            Ok(Ok(false)) => all_ok = false,
+            Ok(Err(f)) => return Err(f),
+            Err(_) => return Err(Fail::new("HARNESS/client-panicked", "hammer client panicked".to_string())),
+        }
+    }
+    Ok(all_ok)
 }
 
 /// `k` connections opened back to back on a fresh server (1 initial worker, limit 100), each sending
@@ -592,6 +649,25 @@ pub fn run(args: &Args) -> ! {
     });
     if let Some((round, f)) = r {
         ctx.violation(&f.key, &f.what, "c13-round", round_json(&round));
+    }
+    // many requests in flight on several connections to several interfaces at once
+    for k in 0..ctx.tier.pick(3usize, 40) {
+        if ctx.failed() {
+            break;
+        }
+        journal.borrow_mut().note(&json!({"hammer": 2000}));
+        ctx.class("eight-clients-pipelining-2000-requests-each");
+        match hammer(&addrs[k % 3], 2000) {
+            Ok(true) => ctx.case(Some(hash64(&("hammer", k)))),
+            Ok(false) => {
+                ctx.case(None);
+                hung.set(hung.get() + 1);
+            }
+            Err(f) => {
+                ctx.case(None);
+                ctx.violation(&f.key, &f.what, "c13-hammer", json!({"hammer": 2000, "transport": k % 3}));
+            }
+        }
     }
     // bursts of connections that all stay open
     let bursts = ctx.tier.pick(20, 400);
